@@ -3,7 +3,11 @@
    (harness/c16_record.cpp) against the actions of EndianStream.  Every write event carries the bytes that were
    observed on the sink (buffer contents, file read with POSIX calls, bytes peeked on the peer socket); every read
    event carries the value the reader returned.  TLC computes the expected bytes/values from the logged arguments:
-   the trace is accepted iff every line is the corresponding EndianStream step with exactly those bytes/values.   *)
+   the trace is accepted iff every line is the corresponding EndianStream step with exactly those bytes/values.
+   The caller's long-lived objects ("new" / "wp" = stream << object i / "pset" = assignment by the caller / "pchk")
+   are the specification's pool: a "wp" event carries the bytes observed on the sink and the value the object holds
+   after the call (read through the other handle on its buffer), a "pchk" event the value some object holds at that
+   moment; both must equal the specification's pool entry, which only "new" and "pset" ever change.               *)
 EXTENDS EndianStream, IOUtils
 
 T == ndJsonDeserialize(IOEnv.TRACE)
@@ -19,7 +23,7 @@ TStep ==
   /\ l' = l + 1
   /\ LET e == T[l] IN
      \/ /\ e.op = "reset"
-        /\ worder' = e.wo /\ rorder' = e.ro /\ out' = <<>> /\ hist' = <<>> /\ hz' = {}
+        /\ worder' = e.wo /\ rorder' = e.ro /\ out' = <<>> /\ hist' = <<>> /\ hz' = {} /\ pool' = <<>>
      \/ /\ e.op = "set"  /\ SetOrder(e.o)
      \/ /\ e.op = "rset" /\ RSetOrder(e.o)
      \/ /\ e.op = "w"  /\ e.t \in AllTypes /\ Write(e.t, e.v)      /\ out' = out \o e.d
@@ -27,6 +31,12 @@ TStep ==
      \/ /\ e.op = "ws" /\ WriteString(e.s)                          /\ out' = out \o e.d
      \/ /\ e.op = "r"  /\ e.t \in AllTypes /\ Read(e.t) /\ LastRec.v = e.v
      \/ /\ e.op = "rs" /\ ReadRaw(e.n) /\ LastRec.s = e.s
+     \/ /\ e.op = "new"  /\ e.t \in AllTypes /\ NewObj(e.k, e.t, e.a)
+     \/ /\ e.op = "pset" /\ PoolSet(e.i, e.j, e.v)
+     \/ /\ e.op = "wp"   /\ WriteObj(e.i) /\ out' = out \o e.d /\ pool'[e.i].a = e.p
+     \/ /\ e.op = "pchk" /\ e.i \in 1..Len(pool)
+        /\ IF e.i \in 1..Len(pool) THEN pool[e.i].a = e.p ELSE FALSE
+        /\ UNCHANGED vars
 
 TraceSpec == TInit /\ [][TStep]_tvars
 TraceAccepted == TLCGet("stats").diameter - 1 = Len(T)
